@@ -252,8 +252,9 @@ def _glyph_obj(g):
 
 
 def write_ufo(spec, path, structure="package", formatVersion=3):
-    from fontTools.ufoLib import UFOWriter
-    w = UFOWriter(path, formatVersion=formatVersion, structure=structure)
+    from fontTools.ufoLib import UFOWriter, UFOFileStructure
+    # (ufoLib converts a string only when the destination exists: "zip" for a new path would make a package)
+    w = UFOWriter(path, formatVersion=formatVersion, structure=UFOFileStructure(structure))
     info = _Obj()
     for k, v in spec["info"].items():
         setattr(info, k, v)
